@@ -801,6 +801,18 @@ def list_method(ip, lst, name, args, kwargs):
         hook = ctx.cfg.hooks.get('list_sort')
         if hook is not None:
             return hook(ip, lst, kwargs)
+        key = kwargs.get('key')
+        if isinstance(key, Obj) and key.kind == 'cmpkey' and isinstance(key.f['fn'], Obj) and key.f['fn'].kind == 'func':
+            # assumed contract of list.sort(key=cmp_to_key(f)) for a repo comparison function f: the list becomes a
+            # permutation of itself (SORT_PERM), ordered with respect to f provided f is a total preorder
+            used('list.sort(key=cmp_to_key(f)): in-place permutation SORT_PERM(heap, list, f), ordered w.r.t. f when f is a total preorder')
+            fq = key.f['fn'].f['qual']
+            from .models_loops import footprint_term
+            perm = ufun('SORT_PERM_' + fq, HeapSort, Int, z3.ArraySort(Int, Int))(footprint_term(ctx, h), ref)
+            j = z3.Int('j!sort')
+            els = z3.Lambda([j], z3.Select(h.lels(ref), z3.Select(perm, j)))
+            ctx.heap = h.lsetall(ref, n, els)
+            return C(None)
         raise OutOfReach('list.sort without a model')
     if name == 'copy':
         nref, ctx.heap = h.new_list(n, h.lels(ref))
